@@ -329,6 +329,10 @@ def main():
             f = getattr(anp, fnm)
             ror("%s(rect,axis=1,ddof=%d)" % (fnm, ddof), lambda z, f=f, ddof=ddof: f(z, axis=1, ddof=ddof), mat)
             ror("%s(t3,axis=(0,2),ddof=%d)" % (fnm, ddof), lambda z, f=f, ddof=ddof: f(z, axis=(0, 2), ddof=ddof), t3)
+    sq4 = rs.uniform(0.4, 2.0, (4, 4)) * rs.choice([-1.0, 1.0], (4, 4))
+    for fn_ in ("fft2", "ifft2", "fftn", "ifftn", "rfft2", "rfftn", "irfft2", "irfftn"):
+        for axs in ((1, -1), (0, -2), (-1, 1), (0, 0), (-1, -1), (0, 1), (1, 0), (-2, -1), (-1, 0)):
+            ror("fft.%s(axes=%r)" % (fn_, axs), lambda z, fn_=fn_, axs=axs: getattr(anp.fft, fn_)(z, axes=axs), sq4)
     for kth in (0, 1, 2):
         ror("partition(vec,%d)" % kth, lambda z, kth=kth: anp.partition(z, kth), vec)
         ror("partition(rect,%d,axis=1)" % kth, lambda z, kth=kth: anp.partition(z, kth, axis=1), rect)
